@@ -30,6 +30,8 @@ import vlib
 
 COQ_TARGETS = ["Proofs/FldProofs.vo", "Proofs/FldEngineProofs.vo", "Model/Observe.vo", "Model/EngineF.vo"]
 RANGES = [(-1.5, 2.25), (0.0, 1.0), (10.0, 20.0), (-3.0, -1.0)]
+RANGES_DESC = [(1.0, 0.0), (2.25, -1.5), (20.0, 10.0), (-1.0, -3.0)]  # minimum > maximum: the grid runs downwards from minimum to maximum
+RANGES_MIXED = [(2.0, 2.0), (1.0, 0.0), (0.0, 1.0), (-3.0, -3.0)]  # zero-width, descending, ascending
 SEPARATORS = [" ", ",", ", ", "\t", ";", " | ", "  "]
 DECIMALS = [0, 1, 2, 3, 3, 3, 4, 6, 9]
 
@@ -58,6 +60,17 @@ Definition shape_check (c : bool * Z * nat * Z * (Z * Z * list float * list floa
   let '(sc, v, n, p, (rows, kobs, f, l, chk)) := c in
   match resolution (fun _ _ => p) (sc_of sc) v n,
         @scope_inputs float NF (fun _ _ => p) (sc_of sc) v (shape_engine n) (fun _ => true) with
+  | Ok res, Ok m => Z.eqb (Z.of_nat (List.length m)) rows && Z.eqb (values_per_input res) kobs
+                    && frow_eq (hd [] m) f && frow_eq (last m []) l && fsame (checksum m) chk
+  | _, _ => false
+  end.
+Definition shape_engine_r (rs : list (float * float)) : engine float :=
+  fld_engine (map (fun ab => fld_input EmptyString (fst ab) (snd ab) false PrimFloat.nan) rs) [].
+Definition shape_var_check (c : list (float * float) * (bool * Z * Z * (Z * Z * list float * list float * float))) : bool :=
+  let '(rs, (sc, v, p, (rows, kobs, f, l, chk))) := c in
+  let n := List.length rs in
+  match resolution (fun _ _ => p) (sc_of sc) v n,
+        @scope_inputs float NF (fun _ _ => p) (sc_of sc) v (shape_engine_r rs) (fun _ => true) with
   | Ok res, Ok m => Z.eqb (Z.of_nat (List.length m)) rows && Z.eqb (values_per_input res) kobs
                     && frow_eq (hd [] m) f && frow_eq (last m []) l && fsame (checksum m) chk
   | _, _ => false
@@ -139,8 +152,8 @@ def perfect_powers(limit: int) -> set[int]:
 
 
 # --------------------------------------------------------------------------- (a) grid shape
-def shape_engine(fl, n):
-    return fl.Engine(name=f"shape{n}", input_variables=[fl.InputVariable(name=f"i{j}", minimum=a, maximum=b) for j, (a, b) in enumerate(RANGES[:n])])
+def shape_engine(fl, n, ranges=None):
+    return fl.Engine(name=f"shape{n}", input_variables=[fl.InputVariable(name=f"i{j}", minimum=a, maximum=b) for j, (a, b) in enumerate((ranges or RANGES)[:n])])
 
 
 def make_capture(fl):
@@ -193,10 +206,10 @@ def export_call(verdict, stats, what, replay, fn):
         return False, None
 
 
-def shape_engine_fll(fl, n):
+def shape_engine_fll(fl, n, ranges=None):
     """the same engine as shape_engine, imported from FLL: its ranges are numpy.float64, not Python floats"""
     L = [f"Engine: shape{n}"]
-    for j, (a, b) in enumerate(RANGES[:n]):
+    for j, (a, b) in enumerate((ranges or RANGES)[:n]):
         L += [f"InputVariable: i{j}", "  enabled: true", f"  range: {a!r} {b!r}", "  lock-range: false"]
     return fl.FllImporter().from_string("\n".join(L) + "\n")
 
@@ -254,28 +267,43 @@ def shape_part(ctx, fl, verdict, stats):
                     stats["oracle_violations"] += 1
                 lits.append(f"({cbool(is_all)}, {v}, {n}%nat, {p}, ({m.shape[0]}, {kobs[0]}, {crow(m[0])}, {crow(m[-1])}, {vlib.fhex(py_checksum(m))}))")
                 index.append(("shape", "all" if is_all else "each", v, n))
-    # the same grids on engines imported from FLL (numpy.float64 ranges): one-point grids and their neighbours, direct oracle
-    for n in range(1, 5):
-        eng = shape_engine_fll(fl, n)
-        for v in sorted({1, 2, 2**n - 1, 2**n, 3**n}):
-            for sc in (S.AllVariables, S.EachVariable):
-                is_all = sc == S.AllVariables
-                if not is_all and v**n > each_limit:
-                    continue
-                with np.errstate(all="ignore"):
-                    ok, _ = export_call(verdict, stats, f"FldExporter.write_from_scope(FLL-imported engine with {n} inputs (ranges {RANGES[:n]}), writer, values={v}, scope={sc.name})",
-                                        {"kind": "raises", "v": v, "n": n, "all": is_all, "ranges": "fll"}, lambda: cap.write_from_scope(eng, io.StringIO(), v, sc))
-                if not ok:
-                    continue
-                m = cap.captured
-                k = max(1, kroot(v, n)) if is_all else v
-                stats["shape_fll_cases"] += 1
-                stats["one_point_grids"] += k == 1
-                why = grid_content_ok(m, [k] * n, RANGES[:n])
-                if why:
-                    verdict.add_violation("fld:grid-content", f"FLL-imported engine, {'all' if is_all else 'each'} variables = {v}, {n} inputs: {why}; first row {m[0].tolist() if len(m) else None}",
-                                          {"kind": "grid", "v": v, "n": n, "all": is_all, "ranges": "fll"})
-                    stats["oracle_violations"] += 1
+    # the same grids on engines imported from FLL (numpy.float64 ranges) and on descending / zero-width ranges (both kinds of
+    # engine): one-point grids, their neighbours and a few larger sizes; direct oracle with the DOCUMENTED counts
+    # (value_j = minimum + j (maximum - minimum) / max(1, k - 1), whatever the sign of maximum - minimum) and the Coq model
+    vlits, vindex = [], []
+    for label, ranges in (("asc", RANGES), ("desc", RANGES_DESC), ("mixed", RANGES_MIXED)):
+        for kind in ("float", "fll"):
+            if (label, kind) == ("asc", "float"):
+                continue  # the exhaustive loop above
+            for n in range(1, 5):
+                eng = (shape_engine_fll if kind == "fll" else shape_engine)(fl, n, ranges)
+                for v in sorted({1, 2, 3, 5, 12, 2**n - 1, 2**n, 3**n}):
+                    for sc in (S.AllVariables, S.EachVariable):
+                        is_all = sc == S.AllVariables
+                        if not is_all and v**n > 4096:
+                            continue
+                        rp = {"v": v, "n": n, "all": is_all, "ranges": kind, "range_values": ranges[:n]}
+                        with np.errstate(all="ignore"):
+                            ok, _ = export_call(verdict, stats, f"FldExporter.write_from_scope({'FLL-imported engine' if kind == 'fll' else 'engine'} with {n} inputs ({kind} ranges (minimum, maximum) = {ranges[:n]}), writer, values={v}, scope={sc.name})",
+                                                dict(rp, kind="raises"), lambda: cap.write_from_scope(eng, io.StringIO(), v, sc))
+                        if not ok:
+                            continue
+                        m = cap.captured
+                        k = max(1, kroot(v, n)) if is_all else v
+                        stats["shape_variant_cases"] += 1
+                        stats["keys"].add(("shape-variant", label, kind, is_all, v, n))
+                        stats["one_point_grids"] += k == 1
+                        stats["cls_shape_" + label + "_" + kind] += 1
+                        why = grid_content_ok(m, [k] * n, ranges[:n])
+                        if why:
+                            verdict.add_violation("fld:grid-content", f"{'FLL-imported engine' if kind == 'fll' else 'engine'} with {kind} ranges (minimum, maximum) = {ranges[:n]}, {'all' if is_all else 'each'} variables = {v}: {why}; "
+                                                  f"first rows {m[:3].tolist()}, the documented grid runs from minimum to maximum", dict(rp, kind="grid"))
+                            stats["oracle_violations"] += 1
+                        if len(m):
+                            p = int(round(pow(v, 1.0 / n)))
+                            kk = kroot(len(m), n)
+                            vlits.append(f"({vlib.coq_list(f'({vlib.fhex(a)}, {vlib.fhex(b)})' for a, b in ranges[:n])}, ({cbool(is_all)}, {v}, {p}, ({m.shape[0]}, {kk if kk**n == len(m) else -1}, {crow(m[0])}, {crow(m[-1])}, {vlib.fhex(py_checksum(m))})))")
+                            vindex.append(("shape-variant", label, kind, "all" if is_all else "each", v, n))
     # outside the quantifier: zero / negative sizes, no input variables
     elits, eindex = [], []
     for n in range(0, 4):
@@ -303,8 +331,9 @@ def shape_part(ctx, fl, verdict, stats):
         ("bool * Z * nat * Z * (Z * Z * list float * list float * float)", "shape_check", lits),
         ("bool * Z * nat * Z * Z", "edge_check", elits),
         ("Z * nat * Z", "kroot_check", klits),
+        ("list (float * float) * (bool * Z * Z * (Z * Z * list float * list float * float))", "shape_var_check", vlits),
     ]
-    return groups, index + eindex + [("kroot", v, n) for n in range(1, 5) for v in vs]
+    return groups, index + eindex + [("kroot", v, n) for n in range(1, 5) for v in vs] + vindex
 
 
 # --------------------------------------------------------------------------- engines for (b), (c)
@@ -328,8 +357,11 @@ def example_engines(fl):
     ]
 
 
-def gen_engine(fl, rng, n_in, n_out):
-    """a small generated engine (FLL text -> FllImporter): Mamdani/Centroid or Takagi-Sugeno/WeightedAverage outputs"""
+def gen_engine(fl, rng, n_in, n_out, range_mode=None, disable_output=None):
+    """a small generated engine (FLL text -> FllImporter): Mamdani/Centroid or Takagi-Sugeno/WeightedAverage outputs.
+    range_mode: None = per input mostly ascending, sometimes descending (minimum > maximum) or zero-width (minimum == maximum);
+    "desc" = every input descending; "zero" = the first input zero-width.  The terms always live on the ascending interval.
+    disable_output: None = sometimes one of >= 2 outputs disabled; True / False = forced."""
     ins = rng.sample(NAMES, n_in)
     outs = rng.sample(ONAMES, n_out)
     L = [f"Engine: gen_{n_in}_{n_out}"]
@@ -341,13 +373,21 @@ def gen_engine(fl, rng, n_in, n_out):
             lo = rng.uniform(-10, 10)
             hi = lo + rng.uniform(0.1, 20)
         mid = (lo + hi) / 2
-        L += [f"InputVariable: {nm}", "  enabled: true", f"  range: {lo!r} {hi!r}", f"  lock-range: {cbool(rng.random() < 0.3)}",
+        c = rng.random()
+        mode = "desc" if range_mode == "desc" else "zero" if (range_mode == "zero" and nm == ins[0]) else "asc" if range_mode == "asc" else ("desc" if c < 0.12 else "zero" if c < 0.17 else "asc")
+        rlo, rhi = {"asc": (lo, hi), "desc": (hi, lo), "zero": (lo, lo)}[mode]
+        # lock-range only on ascending ranges: numpy.clip(x, 1.0, 0.0) is 0.0 for every x (reported, not generated)
+        lock = rng.random() < 0.3 and mode == "asc"
+        L += [f"InputVariable: {nm}", "  enabled: true", f"  range: {rlo!r} {rhi!r}", f"  lock-range: {cbool(lock)}",
               f"  term: L Ramp {mid!r} {lo!r}", f"  term: M Triangle {lo!r} {mid!r} {hi!r}", f"  term: H Ramp {mid!r} {hi!r}"]
     kinds = []
+    disabled = None
+    if n_out >= 2 and (disable_output is True or (disable_output is None and rng.random() < 0.2)):
+        disabled = rng.choice(outs)
     for nm in outs:
         ts = rng.random() < 0.5
         kinds.append(ts)
-        L += [f"OutputVariable: {nm}", "  enabled: true", "  range: 0.0 1.0", f"  lock-range: {cbool(rng.random() < 0.2)}"]
+        L += [f"OutputVariable: {nm}", f"  enabled: {cbool(nm != disabled)}", "  range: 0.0 1.0", f"  lock-range: {cbool(rng.random() < 0.2)}"]
         if ts:
             L += ["  aggregation: none", "  defuzzifier: WeightedAverage TakagiSugeno"]
         else:
@@ -398,6 +438,20 @@ def scalar_rows(engine, rows):
             if mode == "array":
                 raise
     raise AssertionError
+
+
+def batch_has_vector_output(engine, rows) -> bool:
+    """Engine.process on the batch (not the exporter, not Engine.output_values): does some output variable hold one value
+    per row?  (When every output value is 0-d -- disabled variables, variables no rule concludes on -- the unchanged code
+    cannot stack inputs and outputs of a grid of several rows: a defect reported separately, not exercised here.)"""
+    e = copy.deepcopy(engine)
+    e.restart()
+    m = np.array(rows, dtype=float).reshape(len(rows), len(e.input_variables))
+    with np.errstate(all="ignore"):
+        for i, iv in enumerate(e.input_variables):
+            iv.value = m[:, i].copy()
+        e.process()
+    return any(np.ndim(ov.value) >= 1 and np.size(ov.value) == len(rows) for ov in e.output_variables)
 
 
 def close_printed(token: str, y: float, d: int) -> bool:
@@ -458,11 +512,16 @@ def text_part(ctx, fl, verdict, stats):
     max_rows = 160
     # in every run: one-point grids (each variable = 1; all variables = v < 2**inputs) on engines built directly
     # (Python float ranges) and on engines imported from FLL (numpy.float64 ranges), 1-4 inputs
-    forced = [(kind, n_, all_, v_) for kind in ("direct", "fll") for n_ in (1, 2, 3, 4) for all_, v_ in ((False, 1), (True, 1), (True, 2**n_ - 1))]
+    forced = [(kind, n_, all_, v_, "asc", False) for kind in ("direct", "fll") for n_ in (1, 2, 3, 4) for all_, v_ in ((False, 1), (True, 1), (True, 2**n_ - 1))]
+    # ... descending (minimum > maximum) and zero-width input ranges, and an engine with a disabled output variable next to an
+    # enabled one (a 0-d value next to per-row vectors) on a grid of several rows
+    forced += [(kind, n_, all_, v_, mode, dis) for kind in ("direct", "fll") for n_, all_, v_, mode, dis in (
+        (1, False, 5, "desc", False), (2, True, 9, "desc", False), (3, False, 2, "desc", False), (1, False, 4, "zero", False), (2, True, 16, "zero", False),
+        (1, False, 4, None, True), (2, True, 9, None, True))]
     for case in range(ncases):
         force = forced[case] if case < len(forced) else None
         if force:
-            engine = gen_engine(fl, rng, force[1], rng.choice([1, 2]))
+            engine = gen_engine(fl, rng, force[1], 2 if force[5] else rng.choice([1, 2]), range_mode=force[4], disable_output=force[5])
             if force[0] == "direct":
                 floatify(engine)
         else:
@@ -480,6 +539,7 @@ def text_part(ctx, fl, verdict, stats):
         active = None
         if force:
             is_all, v, xi = force[2], force[3], True
+            xo = xo or force[5]
         elif rng.random() < 0.2:
             flags = [rng.random() < 0.5 for _ in ivs]
             active = {iv for iv, f in zip(ivs, flags) if f}
@@ -522,6 +582,9 @@ def text_part(ctx, fl, verdict, stats):
         counts = [k if f else 1 for f in flags]
         stats["one_point_grids"] += all(c == 1 for c in counts)
         stats["cls_ranges_" + ("numpy" if kind_of.startswith("numpy") else "python")] += 1
+        stats["cls_descending_range"] += any(iv.minimum > iv.maximum for iv in ivs)
+        stats["cls_zero_width_range"] += any(iv.minimum == iv.maximum for iv in ivs)
+        stats["cls_disabled_output"] += any(not ov.enabled for ov in ovs)
         lines = text.split("\n")
         nviol0 = len(verdict.violations) + sum(verdict.known_hits.values())
         if text and lines[-1] != "":
@@ -555,7 +618,7 @@ def text_part(ctx, fl, verdict, stats):
                     for j, w in enumerate(row):
                         g = float(ins[r][j])
                         if isinstance(w, Fraction):
-                            okv = math.isfinite(g) and abs(Fraction(g) - w) <= Fraction(1, 10**12) * max(1, abs(w), abs(Fraction(ivs[j].maximum)))
+                            okv = math.isfinite(g) and abs(Fraction(g) - w) <= Fraction(1, 10**12) * max(1, abs(w), abs(Fraction(ivs[j].maximum)), abs(Fraction(ivs[j].minimum)))
                         else:
                             okv = (math.isnan(w) and math.isnan(g)) or g == w
                         if not okv:
@@ -821,11 +884,40 @@ def engine_part(ctx, fl, verdict, stats):
     grid_only = make_capture(fl)
     rng = ctx.rng
     lits, index = [], []
+    n_forced = 6  # in every run: >= 2 output variables, the first one disabled (a 0-d value next to per-row vectors), several rows
     for case in range(ctx.n(60, 600)):
-        desc = E.gen_engine(rng, profile="algebraic", activations=("General",), weighted=True)
+        forced = case < n_forced
+        for _attempt in range(40):
+            desc = E.gen_engine(rng, profile="algebraic", activations=("General",), weighted=True)
+            if not forced:
+                break
+            if len(desc["outputs"]) < 2:
+                continue
+            for i_, o_ in enumerate(desc["outputs"]):
+                o_["enabled"] = i_ != 0
+            for iv_ in desc["inputs"]:
+                iv_["enabled"] = True
+            try:  # keep it only if the engine processes fine row by row and some enabled output depends on the inputs
+                rows_ = [E.gen_row(rng, desc) for _ in range(3)]
+                scalar_rows(E.build_engine(fl, desc), rows_)
+                if batch_has_vector_output(E.build_engine(fl, desc), rows_):
+                    break
+            except Exception:  # noqa
+                continue
+        # descending (minimum > maximum) and zero-width input ranges; the terms keep their place
+        for iv_ in desc["inputs"]:
+            c_ = rng.random()
+            if c_ < 0.15:
+                iv_["min"], iv_["max"] = iv_["max"], iv_["min"]
+            elif c_ < 0.2:
+                iv_["max"] = iv_["min"]
         engine = E.build_engine(fl, desc)
         ivs, ovs = engine.input_variables, engine.output_variables
         n = len(ivs)
+        numpy_ranges = rng.random() < 0.5
+        if numpy_ranges:  # what an engine imported from FLL holds
+            for var in list(ivs) + list(ovs):
+                var.minimum, var.maximum = np.float64(var.minimum), np.float64(var.maximum)
         dirty = rng.random() < 0.5
         if dirty:  # an earlier run leaves values, previous values, fuzzy outputs and rule degrees behind
             try:
@@ -845,7 +937,11 @@ def engine_part(ctx, fl, verdict, stats):
         sep = rng.choice(SEPARATORS)
         hdr, xi, xo = (rng.random() < 0.7, rng.random() < 0.85, rng.random() < 0.9)
         d = rng.choice(DECIMALS)
+        if forced:
+            flags, active, xo = [True] * n, set(ivs), True
+            is_all, v = (True, rng.randint(2**n, 16)) if rng.random() < 0.5 else (False, rng.randint(2, max(2, int(16 ** (1.0 / n)))))
         lit = E.lit_engine(fl, desc, engine)  # the state the export starts from
+        before = copy.deepcopy(engine)
         p = int(round(pow(v, 1.0 / n)))
         spy = Spy(separator=sep, headers=hdr, input_values=xi, output_values=xo)
         what = f"engine case {case}: {n} inputs, {len(ovs)} outputs, {'all' if is_all else 'each'} variables = {v}, dirty {dirty}, switches {hdr}/{xi}/{xo}, active {flags}"
@@ -856,8 +952,12 @@ def engine_part(ctx, fl, verdict, stats):
                 with np.errstate(all="ignore"), fl.settings.context(decimals=d):
                     text = spy.to_string_from_scope(engine, v, S.AllVariables if is_all else S.EachVariable, active)
             except Exception as ex:  # noqa
-                code = err_code(ex)
+                code, raised = err_code(ex), ex
             tbl = vlib.RECORDER.take()
+        stats["cls_engine_descending_range"] += any(iv.minimum > iv.maximum for iv in ivs)
+        stats["cls_engine_zero_width_range"] += any(iv.minimum == iv.maximum for iv in ivs)
+        stats["cls_engine_disabled_output"] += len(ovs) >= 2 and any(not ov.enabled for ov in ovs) and any(ov.enabled for ov in ovs)
+        stats["cls_engine_numpy_ranges"] += numpy_ranges
         if code is not None:
             # an engine misconfiguration may make Engine.process raise (compared with the model below); building the grid may not
             ranges = [(float(iv.minimum), float(iv.maximum)) for iv in ivs]
@@ -865,6 +965,29 @@ def engine_part(ctx, fl, verdict, stats):
                                 {"kind": "raises", "v": v, "n": n, "all": is_all, "ranges": "float", "range_values": ranges},
                                 lambda: grid_only.write_from_scope(engine, io.StringIO(), v, S.AllVariables if is_all else S.EachVariable, active))
             if not ok:
+                continue
+            # every output value the engine produces must be tabulated: when the engine (restarted) processes the grid rows
+            # fine one after the other, an exception from the export is a violation with this concrete input
+            try:
+                b2 = copy.deepcopy(before)  # the grid as built from the state before the export (inactive variables keep their value)
+                with np.errstate(all="ignore"):
+                    grid_only.write_from_scope(b2, io.StringIO(), v, S.AllVariables if is_all else S.EachVariable, {iv for iv, f in zip(b2.input_variables, flags) if f})
+                rows = grid_only.captured.tolist()
+                scalar_rows(before, rows)
+                fine = len(rows) == 1 or batch_has_vector_output(before, rows)
+                stats["cls_engine_all_scalar_outputs_raise"] += not fine
+            except Exception:  # noqa
+                fine = False
+            if fine:
+                verdict.add_violation(
+                    "fld:export-raises",
+                    f"FldExporter(separator={sep!r}, headers={hdr}, input_values={xi}, output_values={xo}).to_string_from_scope(engine, values={v}, scope={'AllVariables' if is_all else 'EachVariable'}) raises "
+                    f"{type(raised).__name__}: {raised} although the restarted engine processes the {len(rows)} grid rows one after the other; {what}; input ranges {ranges}; "
+                    f"output variables enabled: {[bool(ov.enabled) for ov in ovs]}; engine:\n{fl.FllExporter().to_string(before)}",
+                    {"kind": "engine-raises", "engine": fl.FllExporter().to_string(before), "v": v, "all": is_all, "separator": sep, "headers": hdr, "inputs": xi, "outputs": xo, "active": flags},
+                )
+                stats["oracle_violations"] += 1
+                stats["export_raises"] += 1
                 continue
         stats["engine_cases"] += 1
         stats["cls_engine_" + ("error" if code else "dirty" if dirty else "fresh")] += 1
@@ -930,7 +1053,7 @@ def run(ctx, build, verdict, ev):
                  "switches x separator x decimals x active subset, whole text; (c) random reader texts (comments, blank lines, whitespace of every ASCII kind, skipped lines, extra columns, "
                  "too few / ragged / non-numeric / empty); (d) enginelib engines (General activation, algebraic terms, integral and weighted defuzzifiers, lock-previous/default/lock-range, half of them holding state from earlier runs) x small grids: numeric matrix and text computed from the engine model alone.  distinct_nontrivial = measured number of distinct (scope, v, n) / (engine, configuration, exported text) / (engine, configuration, reader text, result) keys; the %d edge cases (v <= 0, no inputs) are not counted"
                  % ("1..300 + perfect powers <= 2000 and neighbours" if ctx.tier == "quick" else "1..2000", ctx.n(4096, 20000), stats["each_skipped_too_large"], stats["edge_cases"]))
-    c["distribution"] = {k: v for k, v in stats.items() if k.startswith(("cls_", "scalar_mode")) or k in ("one_point_grids", "shape_fll_cases", "export_raises", "shape_cases", "edge_cases", "text_cases", "reader_cases", "engine_cases", "engine_rows", "rows_total", "text_rows", "reader_rows", "each_skipped_too_large")}
+    c["distribution"] = {k: v for k, v in stats.items() if k.startswith(("cls_", "scalar_mode")) or k in ("one_point_grids", "shape_variant_cases", "export_raises", "shape_cases", "edge_cases", "text_cases", "reader_cases", "engine_cases", "engine_rows", "rows_total", "text_rows", "reader_rows", "each_skipped_too_large")}
     c["correspondence_mismatches"] = len(mism)
     c["oracle_violations"] = stats["oracle_violations"]
     c["all_variables_root_mismatches"] = [{"v": v, "n": n, "values_per_input": g, "documented_k": w, "rows": r} for v, n, g, w, r in stats["root_bad"]]
@@ -951,7 +1074,7 @@ def replay(ctx, data):
         print(v["signature"], "-", v["what"][:600])
         r = v["replay"]
         if r.get("kind") == "raises":
-            eng = shape_engine_fll(fl, r["n"]) if r.get("ranges") == "fll" else shape_engine(fl, r["n"])
+            eng = (shape_engine_fll if r.get("ranges") == "fll" else shape_engine)(fl, r["n"], [tuple(x) for x in r["range_values"]] if r.get("range_values") else None)
             try:
                 cap = make_capture(fl)
                 cap.write_from_scope(eng, io.StringIO(), r["v"], S.AllVariables if r.get("all") else S.EachVariable)
@@ -962,9 +1085,16 @@ def replay(ctx, data):
             cap = make_capture(fl)
             sc = S.EachVariable if r.get("kind") == "each" or r.get("all") is False else S.AllVariables
             with np.errstate(all="ignore"):
-                cap.write_from_scope((shape_engine_fll if r.get("ranges") == "fll" else shape_engine)(fl, r["n"]), io.StringIO(), r["v"], sc)
+                cap.write_from_scope((shape_engine_fll if r.get("ranges") == "fll" else shape_engine)(fl, r["n"], [tuple(x) for x in r["range_values"]] if r.get("range_values") else None), io.StringIO(), r["v"], sc)
             m = cap.captured
             print(f"  now: first row {m[0].tolist()}; {m.shape[0]} rows, {[len(set(m[:, j].tolist())) for j in range(m.shape[1])]} values per input; documented k = {kroot(r['v'], r['n'])}")
+        elif r.get("kind") == "engine-raises":
+            try:
+                e = fl.FllImporter().from_string(r["engine"])
+                act = {iv for iv, f in zip(e.input_variables, r["active"]) if f}
+                print("  now:\n" + fl.FldExporter(r["separator"], r["headers"], r["inputs"], r["outputs"]).to_string_from_scope(e, r["v"], S.AllVariables if r["all"] else S.EachVariable, act)[:600])
+            except Exception as ex:  # noqa
+                print("  now raises", type(ex).__name__, ex)
         elif r.get("kind") == "text":
             e = fl.FllImporter().from_string(r["engine"])
             if r.get("float_ranges"):
